@@ -97,6 +97,12 @@ def BuildRes.policy : BuildRes → Option Policy
   | .ok p => some p
   | _ => none
 
+/-- `edns.buildECSPolicy`: the forwarding side's policy, from the whole `[ecs]` block. -/
+def ednsPolicy (r : BuildRes) : Option Policy := r.policy
+
+/-- `cache.buildCacheECSPolicy`: the keying side's policy, from the same block the same way. -/
+def cachePolicy (r : BuildRes) : Option Policy := r.policy
+
 /-- `(*Policy).Allows`; `none` client = invalid `netip.Addr`. -/
 def allows (p : Option Policy) (client : Option Addr) : Bool :=
   match p, client with
@@ -191,6 +197,46 @@ def clamp (p : Option Policy) (s : Subnet) : Option Fwd :=
         | none => none
         | some pr => some ⟨fam, source, pr.addr⟩
   | _, _ => none
+
+/-! ### what the wire decoder hands to sdns -/
+
+/-- zero-pad / truncate to `n` bytes (`copy(addr, b[4:])` into a fresh `n`-byte slice). -/
+def padTo (n : Nat) (bs : List Nat) : List Nat := (bs ++ List.replicate n 0).take n
+
+/-- `dns.EDNS0_SUBNET.unpack` (the library's decoder, which both the decoded
+entry and `Request.materialize` go through): `s.addr` holds the address bytes
+as they were on the wire (any number of them, host bits and all).  Family 1
+yields the 16-byte IPv4-mapped form, family 0 is accepted with netmask 0 only
+and reads as 0.0.0.0; out-of-range netmask / scope and other families make the
+whole packet undecodable. -/
+def decodeWireSubnet (s : Subnet) : Option Subnet :=
+  let raw := s.addr.getD []
+  if s.family = 0 then
+    if s.mask = 0 then some { s with addr := some (List.replicate 10 0 ++ [255, 255, 0, 0, 0, 0]) } else none
+  else if s.family = 1 then
+    if s.mask > 32 || s.scope > 32 then none
+    else some { s with addr := some (List.replicate 10 0 ++ [255, 255] ++ padTo 4 raw) }
+  else if s.family = 2 then
+    if s.mask > 128 || s.scope > 128 then none
+    else some { s with addr := some (padTo 16 raw) }
+  else none
+
+/-- the options of one OPT record after decoding (only subnet options change shape). -/
+def decodeWireOpts : List Opt → Option (List Opt)
+  | [] => some []
+  | .ecs s :: t =>
+    match decodeWireSubnet s, decodeWireOpts t with
+    | some d, some r => some (.ecs d :: r)
+    | _, _ => none
+  | o :: t => (decodeWireOpts t).map (o :: ·)
+
+/-- a request's OPT records in packet order → the option list sdns works with:
+`SetEdns0` keeps the record `IsEdns0` finds (the last one) and drops every
+other OPT record from the request, unread. -/
+def effectiveOpts : List (List Opt) → Option (List Opt)
+  | [] => none
+  | [l] => some l
+  | _ :: t => effectiveOpts t
 
 /-- the `*dns.EDNS0_SUBNET` case of the scan in `SetEdns0`: the last one wins. -/
 def lastEcs (opts : List Opt) : Option Subnet :=
@@ -460,5 +506,41 @@ scope of the entry that claimed the refresh; the response's own SCOPE is not rea
 and the scoped cap is not applied. -/
 def refreshEntry (expected : Entry) (ttl ans : Nat) : Entry :=
   { expected with ttl := ttl, ans := ans }
+
+/-! ### the answer cache as a history of operations -/
+
+/-- the positive cache: key ↦ entry (the concurrent table is an abstract map, C16). -/
+abbrev Store := List (Nat × Entry)
+
+def Store.get (s : Store) (k : Nat) : Option Entry := (s.find? (fun x => x.1 == k)).map (·.2)
+
+def Store.put (s : Store) (k : Nat) (e : Entry) : Store := (k, e) :: s.filter (fun x => x.1 != k)
+
+def Store.del (s : Store) (k : Nat) : Store := s.filter (fun x => x.1 != k)
+
+/-- everything that changes the answer cache. -/
+inductive CacheOp
+  /-- `cache.ResponseWriter.WriteMsg` of a downstream response for a request with client scope `cs`. -/
+  | answer (cs : Option Prefix) (respOpts : Option (List Opt)) (qid : Nat) (cd : Bool) (ttl ans : Nat) (kind : RespKind)
+  /-- `processPrefetch` → `ReplaceIfCurrent` for the entry under `key` that claimed the refresh
+  (`claimedAns` identifies the entry object; only prefetch-eligible entries are ever queued). -/
+  | refresh (key claimedAns ttl ans : Nat)
+  /-- expiry / eviction / purge: any key may vanish at any time. -/
+  | evict (key : Nat)
+
+def cacheStep (H : Hash) (p : Option Policy) (cap : Nat) (s : Store) : CacheOp → Store
+  | .answer cs ro qid cd ttl ans kind =>
+    let e := storeEntry p cs ro qid cd ttl cap ans kind
+    s.put (H qid cd e.scope) e
+  | .refresh key claimedAns ttl ans =>
+    match s.get key with
+    | some cur =>
+      if cur.ans == claimedAns && prefetchEligible cur then s.put key (refreshEntry cur ttl ans) else s
+    | none => s
+  | .evict key => s.del key
+
+/-- the store after a history of operations, starting empty. -/
+def runCache (H : Hash) (p : Option Policy) (cap : Nat) (ops : List CacheOp) : Store :=
+  ops.foldl (cacheStep H p cap) []
 
 end SdnsVerif.Model.Ecs
